@@ -14,11 +14,11 @@ LEVEL_TEXT = ('every combination of destination kind, trashed kind, --overwrite,
               'alphabet, which contains one representative of every branch of the existence probe and of shutil.move')
 LEVEL_NOTE = 'trusted: CPython/shutil, tmpfs, the snapshot comparer; names and contents outside the alphabet are not covered'
 RULE = ('full Cartesian product of destination kind (absent, regular file, empty dir, non-empty dir, '
-        'symlink->file, symlink->dir, dangling symlink) x trashed kind (6) x --overwrite x selection '
-        'shape (single / "0,1" with first or second blocked / "0-1") x --sort; plus the same location trashed twice and both indices chosen in one run (parent kept / removed); every point executed '
+        'symlink->file, symlink->dir, dangling symlink, regular file owned by another user) x trashed kind (6) x --overwrite x selection '
+        'shape (single / "0,1" with first or second blocked / "0-1") x --sort, and single selections again with the trash directory named by --trash-dir; plus the same location trashed twice and both indices chosen in one run (parent kept / removed); every point executed '
         'on the real trash-put + trash-restore; non-trivial = the run reached the existence probe '
         '(listing printed and an index chosen), distinct = outcome class x dest x kind x overwrite')
-DESTS = ['absent', 'file', 'file-same-stat', 'emptydir', 'dir', 'lfile', 'ldir', 'ldang']
+DESTS = ['absent', 'file', 'file-same-stat', 'file-other-owner', 'emptydir', 'dir', 'lfile', 'ldir', 'ldang']
 SELS = ['single', 'comma-first', 'comma-second', 'range-first', 'range-second']
 SORTS = ['date', 'path', 'none']
 W = '/home/u/w'
@@ -53,11 +53,17 @@ def cases(tier):
                 for k in scen.KINDS:
                     for d in DESTS:
                         out.append({'dest': d, 'kind': k, 'ow': ow, 'sel': sel, 'sort': so})
+    # the same trash directory named explicitly with --trash-dir
+    for so in sorts(tier):
+        for ow in (0, 1):
+            for k in scen.KINDS:
+                for d in DESTS:
+                    out.append({'dest': d, 'kind': k, 'ow': ow, 'sel': 'single', 'sort': so, 'via': 'trash-dir'})
     return out
 
 
 def plant(W_, path, dest):
-    if dest == 'file':
+    if dest in ('file', 'file-other-owner'):
         W_.file(path, 'pre-existing destination\n', mode=0o666)
     elif dest == 'file-same-stat':
         pass        # planted by the caller: same size, mode and mtime as the trashed file, other bytes
@@ -193,6 +199,9 @@ def run_case(c):
         extra.nodes, extra.order = {}, []
         plant(extra, bpath, c['dest'])
         world.build(sb.root, [extra.nodes[p] for p in extra.order if p.startswith(bpath)])
+        if c['dest'] == 'file-other-owner':
+            import os
+            os.chown(sb.root + bpath, 54321, 54321)          # e.g. root restoring over a user's file
         if c['dest'] == 'file-same-stat':
             o = orig[bpath]
             if o[0] == 'f' and len(o[3]) > 0:
@@ -201,7 +210,7 @@ def run_case(c):
             else:
                 world.build(sb.root, [['f', bpath, 0o640, 1500000000 * 10 ** 9, 'x']])
         before = sb.snapshot()
-        argv = ['trash-restore', '--sort', c['sort']] + (['--overwrite'] if c['ow'] else [])
+        argv = ['trash-restore', '--sort', c['sort']] + (['--overwrite'] if c['ow'] else []) + (['--trash-dir', TD] if c.get('via') else [])
         if c['sel'] == 'single' and c['sort'] == 'date' and c['kind'] in ('file', 'tree', 'ldang'):
             argv.append(bpath)          # the entry's own path given as the PATH argument (cwd elsewhere)
         reply = {'single': '0', 'comma-first': '0,1', 'comma-second': '0,1',
@@ -210,7 +219,7 @@ def run_case(c):
         after = sb.snapshot()
     listing = scen.parse_restore_listing(r.out)
     detail = {'argv': argv, 'exit': r.exit, 'err': r.err[-300:], 'listing': listing}
-    dims = 'dest=%s|kind=%s|ow=%d' % (c['dest'], c['kind'], c['ow'])
+    dims = 'dest=%s|kind=%s|ow=%d%s' % (c['dest'], c['kind'], c['ow'], '|--trash-dir' if c.get('via') else '')
     reached = len(listing) == (2 if multi else 1)
     pair_b_before = (before.get(TD + '/info/%s.trashinfo' % bname), world.under(before, TD + '/files/' + bname))
     pair_b_after = (after.get(TD + '/info/%s.trashinfo' % bname), world.under(after, TD + '/files/' + bname))
